@@ -66,7 +66,8 @@ Definition c11_retry_only_if_unprocessed : Prop :=
    delivered for a request whose HEADERS are not in the trace; ErrGoAway for one whose HEADERS are not in
    the trace or whose stream is above the last-stream-id of a GOAWAY the read loop has taken in *)
 Definition goaway_above (log : list cli_entry) (id : N) : Prop :=
-  exists e fr, In e log /\ le_ev e = CEvRL (RFrame fr) /\ cl_rl_live hpack_state (le_before e) = true /               sf_kind fr = KGoAway /\ sf_sid fr = 0 /\ sf_dep fr < id.
+  exists e fr, In e log /\ le_ev e = CEvRL (RFrame fr) /\ cl_rl_live hpack_state (le_before e) = true /\
+               sf_kind fr = KGoAway /\ sf_sid fr = 0 /\ sf_dep fr < id.
 Definition c11_retryable_errors_unsent : Prop :=
   forall cfg first evs tag retry err resp,
     let tr := cli_tr cfg first evs in
